@@ -631,3 +631,34 @@ func TestPdfcpuNonASCIIPasswordForm(t *testing.T) {
 			e.R, c.pw, prepared, perr, okPrepared, okUTF8)
 	}
 }
+
+// Observation (recorded, not asserted): R5/R6 password preparation on pdfcpu's
+// read side versus SASLprep, and pdfcpu's own write/read round trip.
+func TestPdfcpuR56PasswordPreparation(t *testing.T) {
+	api.DisableConfigDir()
+	plain := BuildPlainPDF("m", []byte("fedcba9876543210"))
+	for _, pw := range []string{"user", "pass word", "päss", "Ⅸª", "a b", "I­X", "pw!#$%"} {
+		prepared, err := PreparePassword(pw, 6)
+		if err != nil {
+			t.Fatal(err)
+		}
+		// our file (password prepared as the specification says) read by pdfcpu
+		for _, R := range []int{5, 6} {
+			s := specFor(variant{"x", R, true, 256}, "", "owner", true)
+			s.UserPw, s.Marker, s.P = prepared, "m", -1
+			pdf, _, _ := BuildEncryptedPDF(s)
+			_, err := pdfcpuOpen(pdf, pw, "")
+			t.Logf("R%d file with SASLprep(%q)=%q opened by pdfcpu with %q: err=%v", R, pw, prepared, pw, err)
+		}
+		// pdfcpu's file read by pdfcpu with the very same password
+		conf := model.NewAESConfiguration(pw, "owner", 256)
+		conf.ValidationMode = model.ValidationRelaxed
+		var out bytes.Buffer
+		if err := api.Encrypt(bytes.NewReader(plain), &out, conf); err != nil {
+			t.Logf("api.Encrypt with %q: %v", pw, err)
+			continue
+		}
+		_, err = pdfcpuOpen(out.Bytes(), pw, "")
+		t.Logf("pdfcpu AES-256 file written with %q reopened by pdfcpu with %q: err=%v", pw, pw, err)
+	}
+}
